@@ -196,7 +196,8 @@ class ScaledProblem(Problem):
 
         jac_orig = self.problem.cons_jac(x_orig)
 
-        jac = jac_orig.tocoo()
+        # Copy required in order not to modify the original Jacobian
+        jac = jac_orig.tocoo(copy=True)
 
         jac_row = jac.row
         jac_col = jac.col
@@ -217,7 +218,8 @@ class ScaledProblem(Problem):
 
         hess_orig = self.problem.lag_hess(x_orig, y_orig)
 
-        hess = hess_orig.tocoo()
+        # Copy required in order not to modify the original Hessian
+        hess = hess_orig.tocoo(copy=True)
 
         hess_row = hess.row
         hess_col = hess.col
